@@ -44,9 +44,11 @@ func (s *linearSem) ClassName(c int) string {
 	}
 	return fmt.Sprintf("class%d", c)
 }
-func (s *linearSem) Call(info *types.Info, call *ast.CallExpr) ([]flow.Effect, bool) { return nil, false }
-func (s *linearSem) Assign(info *types.Info, lhs, rhs ast.Expr) []flow.Effect           { return nil }
-func (s *linearSem) NoReturn(info *types.Info, call *ast.CallExpr) bool                  { return false }
+func (s *linearSem) Call(info *types.Info, call *ast.CallExpr) ([]flow.Effect, bool) {
+	return nil, false
+}
+func (s *linearSem) Assign(info *types.Info, lhs, rhs ast.Expr) []flow.Effect { return nil }
+func (s *linearSem) NoReturn(info *types.Info, call *ast.CallExpr) bool       { return false }
 
 func (s *linearSem) isRecvVar(info *types.Info, id *ast.Ident) types.Object {
 	o := info.Uses[id]
